@@ -236,27 +236,37 @@ PROPS = {
         unverified=['last_use_map', 'RegisterAllocator::convert_circuit loop', 'register_circuit::Circuit::validate / eval (see C16)'],
     ),
     'C08': dict(
-        units=['patterns'],
-        deps=[],
+        units=['patterns', 'typing', 'patlower'],
+        deps=[('builder', 'C04'), ('arith', 'C03')],
         witness=['c08', '--random', '4000'],
         witness_thorough=['c08', '--random', '400000'],
         level='proof',
-        technique='Verus contracts on the real integer constructor splitting of the exhaustiveness checker (split_unsigned_range, split_signed_range: '
-                  'loop invariants over the split points, sort/dedup by trusted specifications); bounded differential check of whole matches on the real code',
-        claim='Deductive proof (Verus/Z3), for every arm list, every integer type and every range [min, max], on the real split_unsigned_range and '
-              'split_signed_range (where the boundary arithmetic of the property lives): (cover) every value of the range lies in some returned constructor, '
-              '(homogeneous) no arm head - literal, inclusive range (exclusive ranges are stored as end-1), binding, signed or unsigned - distinguishes two '
-              'values of one returned constructor, so deciding a constructor decides each of its values, (non-empty) every returned constructor denotes at '
-              'least one value; no arithmetic overflow at 0 / MIN / MAX / u64::MAX. The usefulness recursion (usefulness / specialize / split_ctor over '
-              'tuples, structs, enums, arrays), pattern typing, parsing and the match lowering in compile are NOT under contract: as the labelled bounded '
-              'stand-in, random and directed arm lists over 12 scrutinee types are decided on the real checker and compared with brute-force enumeration '
-              '(accepted exactly when every value is matched; every accepted match compiled and evaluated against the first matching arm).',
+        technique='Verus contracts on the real integer layer of pattern matching: bound check of pattern typing (expect_pattern_in_range), constructor '
+                  'splitting (split_unsigned_range, split_signed_range), the integer arms of specialize and the integer arms of TypedPattern::compile '
+                  '(lifted by R5); bounded differential check of whole matches on the real code',
+        claim='Deductive proof (Verus/Z3) on the real code, for every arm list, integer type, width, builder state and input assignment, of the integer layer '
+              'where the boundary arithmetic of the property lives. (1) pattern typing: expect_pattern_in_range accepts a literal / range pattern exactly when '
+              'both bounds are values of the matched type. (2) exhaustiveness: split_unsigned_range / split_signed_range return constructors that cover every '
+              'value of [min, max], each non-empty and homogeneous (no arm head - literal, inclusive range, exclusive range stored as end-1, binding, signed '
+              'or unsigned - distinguishes two values of one constructor); the integer arms of specialize keep an arm exactly when its head matches every '
+              'value of the constructor; hence (lemma) for every returned constructor and each of its values v, specialize keeps exactly the arms whose head '
+              'matches v. (3) lowering: the NumUnsigned / NumSigned arms of TypedPattern::compile return a wire that is true exactly when the scrutinee value '
+              'equals the literal, the Unsigned- / SignedInclusiveRange arms exactly when min <= value <= max (signed or unsigned comparison as the type '
+              'demands). NOT under contract: the usefulness recursion (usefulness, split_ctor, non-integer constructors), the first-match chain of the Match '
+              'arm (has_prev_match / mux), tuple / struct / enum patterns, parsing: as the labelled bounded stand-in, random and directed arm lists over 12 '
+              'scrutinee types (incl. bounds outside the type, empty and inverted ranges) are decided on the real checker and compared with brute-force '
+              'enumeration (accepted exactly when every value is matched; every accepted match compiled and evaluated against the first matching arm).',
         note='Trusted: <[T]>::sort_unstable returns a sorted permutation and Vec::dedup keeps the same elements and makes a sorted vector strictly increasing '
-             '(assume_specification + two admitted axioms for u128 / i128); vstd; rules R0, R7, R10 (windows(2) -> index loop). Oracle of the bounded part: '
-             'the pattern matcher in replay/src/c08.rs. Missing-case witnesses of rejected matches are not decoded.',
-        title='match exhaustiveness: integer constructor splitting covers the range and is homogeneous for every arm list (proved); usefulness recursion '
-              'and first-match lowering by bounded differential',
-        unverified=['usefulness, specialize, split_ctor (recursion over pattern stacks; tuple / struct / enum / array constructors): bounded differential only',
-                    'pattern type checking, range pattern parsing', 'match lowering in compile (has_prev_match chain, TypedPattern::compile): bounded differential only'],
+             '(assume_specification + two admitted axioms for u128 / i128); iter_collect (R11) returns the collected tail; unsigned_as_wires / signed_as_wires '
+             'return the constant wires of the low bits (external_body; bit layout of unsigned_to_bits / signed_to_bits proved by the C09 Kani harnesses); '
+             'builder-core and comparator contracts (proved in units builder / arith, which this check runs too); bits == match_expr.len() <= 64 and '
+             '"bounds fit the width" are preconditions of the lowering arms (established by pattern typing, whose call of expect_pattern_in_range is not '
+             'under contract); vstd; rules R0, R5, R5c, R7, R10, R11. Oracle of the bounded part: the pattern matcher in replay/src/c08.rs.',
+        title='match on integers: pattern bounds checked against the type, constructor splitting covers / is homogeneous, specialize and the lowering of '
+              'literal and range patterns exact (proved); usefulness recursion and first-match chain by bounded differential',
+        unverified=['usefulness, split_ctor, specialize for tuple / struct / enum / array constructors (recursion over pattern stacks): bounded differential only',
+                    'Pattern::type_check (that every integer pattern is passed to expect_pattern_in_range), range pattern parsing',
+                    'Match arm of TypedExpr::compile (has_prev_match chain, mux of results, environments and panic records) and the tuple / struct / enum arms of '
+                    'TypedPattern::compile: bounded differential only'],
     ),
 }
